@@ -78,9 +78,22 @@ def line_reason(line, k):
     return None
 
 
+def _delimiter_cells(line):
+    t = line.strip(' \t')
+    t = t[1:] if t.startswith('|') else t
+    t = t[:-1] if t.endswith('|') else t
+    return len(t.split('|'))
+
+
 def paragraph_reason(lines):
     for k, line in enumerate(lines):
         r = line_reason(line, k)
+        if r == 'setext underline / table delimiter row' and '|' in line and '|' not in lines[k - 1] and _delimiter_cells(line) >= 2:
+            # GFM tables: "the header row must match the delimiter row in the number of cells" - a line without any pipe
+            # is one cell, this delimiter row has more: no table (and with a pipe in it, no setext underline either)
+            r = None
+            if line.endswith('  ') or line.endswith('\\'):
+                r = 'hard line break'
         if r:
             return r
     text = '\n'.join(l.lstrip(' \t').rstrip(' ') for l in lines)
